@@ -15,6 +15,7 @@ mod val;
 mod p_clvm;
 mod corpus;
 mod p_history;
+mod p_entry;
 mod p_includes;
 mod p_atomic;
 
@@ -28,6 +29,7 @@ pub fn handle(job: &Value) -> Value {
         "print" => ops_print::op_print(job),
         "compile" => ops_compile::op_compile(job),
         "deps" => p_includes::op_deps(job),
+        "entry" => p_entry::op_entry(job),
         "ping" => json!({"pong": true}),
         other => json!({"error": format!("unknown op {other}")}),
     }
@@ -44,6 +46,7 @@ fn main() {
         "worker" => pool::worker_main(handle),
         "replay-clvm" => p_clvm::replay(&rest),
         "drive-clvm" => p_clvm::drive(&rest),
+        "drive-entry" => p_entry::drive(&rest),
         "drive-includes" => p_includes::drive(&rest),
         "c05-child" => p_history::child(&rest),
         "drive-history" => p_history::drive(&rest),
